@@ -240,10 +240,29 @@ fn build(w: &Value) -> Built {
         src.push_str(&format!("(define t{k} (spawn-native-thread (lambda () (body-{k}))))\n", k = k));
     }
     src.push_str("(define main-result (body-0))\n");
-    src.push_str(&format!("(define msgs (map (lambda (i) (channel/recv rx)) (range 0 {})))\n", total_msgs));
+    // how main reaches the blocking primitives: directly inside a callback,
+    // through apply, from a function whose tail call is the primitive, or in a
+    // named-let loop
+    let recv_via = w["recv_via"].as_u64().unwrap_or(0);
+    let recv_expr = match recv_via {
+        1 => "(apply channel/recv (list rx))",
+        2 => "(recv-in-tail-position)",
+        _ => "(channel/recv rx)",
+    };
+    src.push_str("(define (recv-in-tail-position) (channel/recv rx))\n");
+    if recv_via == 3 {
+        src.push_str(&format!("(define msgs (let lp ((i 0) (acc '())) (if (= i {}) (reverse acc) (lp (+ i 1) (cons (channel/recv rx) acc)))))\n", total_msgs));
+    } else {
+        src.push_str(&format!("(define msgs (map (lambda (i) {}) (range 0 {})))\n", recv_expr, total_msgs));
+    }
+    let join_via = w["join_via"].as_u64().unwrap_or(0);
     let mut joins = String::new();
     for k in order.iter() {
-        joins.push_str(&format!(" (thread-join! t{})", k));
+        match join_via {
+            1 => joins.push_str(&format!(" (apply thread-join! (list t{}))", k)),
+            2 => joins.push_str(&format!(" (car (map thread-join! (list t{})))", k)),
+            _ => joins.push_str(&format!(" (thread-join! t{})", k)),
+        }
     }
     src.push_str(&format!("(define joined (list{}))\n", joins));
     let mut seqs = String::new();
@@ -327,10 +346,14 @@ fn gen_workload(rng: &mut Rng, prop: &str, thorough: bool) -> Value {
     }
     let mut order: Vec<usize> = (1..nthreads).collect();
     rng.shuffle(&mut order);
-    json!({"jit": jit, "gc": [gn, gd], "globals": nglob, "threads": threads, "join_order": order})
+    let recv_via = *rng.pick(&[0u64, 0, 1, 2, 3]);
+    let join_via = *rng.pick(&[0u64, 0, 1, 2]);
+    json!({"jit": jit, "gc": [gn, gd], "globals": nglob, "threads": threads, "join_order": order, "recv_via": recv_via, "join_via": join_via})
 }
 
 static TIER: std::sync::Mutex<&'static str> = std::sync::Mutex::new("jit");
+/// How main reaches its blocking primitives in this run (part of deadlock signatures).
+static PATHS: std::sync::Mutex<String> = std::sync::Mutex::new(String::new());
 
 /// Signature of a deadlock: which blocked threads are not published (a stopper
 /// can never see them stop), and where the stopper spins. Published blocked
@@ -362,6 +385,13 @@ fn deadlock_signature(desc: &str) -> String {
     spinners.dedup();
     blocked_published.sort();
     blocked_published.dedup();
+    let paths = PATHS.lock().unwrap().clone();
+    // only main's receives and joins go through another path than a direct call
+    let via = if unpublished.iter().any(|u| u == "channel-recv" || u == "thread-join") && desc.contains("t0:blocked@") {
+        format!("/paths={}", paths)
+    } else {
+        String::new()
+    };
     if spinners.is_empty() {
         // nobody spins: a plain wait-for cycle among blocking primitives
         let mut all = unpublished.clone();
@@ -371,10 +401,11 @@ fn deadlock_signature(desc: &str) -> String {
         return format!("C16/deadlock/{}/no-stopper/blocked={}", tier, all.join("+"));
     }
     format!(
-        "C16/deadlock/{}/unpublished={}/stopper-at={}",
+        "C16/deadlock/{}/unpublished={}/stopper-at={}{}",
         tier,
         if unpublished.is_empty() { "none".to_string() } else { unpublished.join("+") },
-        spinners.join("+")
+        spinners.join("+"),
+        via
     )
 }
 
@@ -441,6 +472,11 @@ impl Scenario for Threads {
         }
         let built = build(&w);
         *TIER.lock().unwrap() = if w["jit"].as_bool().unwrap_or(true) { "jit" } else { "nojit" };
+        *PATHS.lock().unwrap() = format!(
+            "recv:{},join:{}",
+            match w["recv_via"].as_u64().unwrap_or(0) { 1 => "apply", 2 => "tail-call", 3 => "loop", _ => "map-callback" },
+            match w["join_via"].as_u64().unwrap_or(0) { 1 => "apply", 2 => "map", _ => "direct" }
+        );
         let mut faults = vmh::default_faults(spec.seed, spec.index);
         faults.gc_num = w["gc"][0].as_u64().unwrap_or(0);
         faults.gc_den = w["gc"][1].as_u64().unwrap_or(1);
